@@ -7,9 +7,12 @@ def run(rep, tier, seed):
     rep.rule = ("histories of four Execute calls on one goroutine (A, probe, A, probe) where A is every wrapper path of depth "
                 "<=1 (quick) / <=2 (thorough) around a focal that succeeds or fails (two classes), inside or outside try, and the "
                 "probe template (top level / in a block / through include) renders '.', variables, yield content; the probe runs "
-                "once with nil data; every history is non-trivial; distinct by history")
+                "once with nil data; A with and without a top-level := (deferred scope restore) and with VarMap entries the probe must not see; "
+                "each history also with the probes executed through a second Set with another escaper; every history is non-trivial; distinct by history")
     d = 1 if tier == "quick" else 2
     gen_and_replay(rep, wd, exe, "Gen_C10.tla", "C10_d%d" % d, {"Depth": d}, {"Kinds": "WrapKinds"}, extra_inv=["SpecPure"])
+    # the same histories with the odd-numbered executions going through a second Set (same templates, another escaper)
+    replay_vectors(rep, exe, "replay-exec-alt", os.path.join(wd, "vec_C10_d%d.ndjson" % d), shards=4)
     if tier == "thorough":
         asis_refuted(rep, wd, "Gen_C10.tla", "C10_asis", {"Depth": 1, "FixPool": "FALSE"}, {"Kinds": "WrapKinds"}, ("StartsClean",))
     repo_suite_traces(rep, wd)
